@@ -122,6 +122,10 @@ def s7_own_backend(chk: Check, proj: Project) -> None:
     if len(cs) != 1:
         chk.undecided("S7", "cache:get_component_media_cache:own-backend-params", m.loc(f), f"{len(cs)} LocMemCache(...) constructions with a literal params dict")
         return
+    nm0 = cs[0].args[0]
+    chk.ob("S7", "cache:get_component_media_cache:one-store-however-often-created", m.loc(nm0), isinstance(nm0, ast.Constant) and isinstance(nm0.value, str),
+           "the LocMemCache name is a constant: Django keeps one storage per name, so the unsynchronised check-then-create of the lazy singleton always ends on the same store" if isinstance(nm0, ast.Constant) else
+           f"the LocMemCache is created under a per-call name `{short(nm0)}`: two threads that both find the global unset create two DIFFERENT stores, the later assignment wins, and the scripts the first thread already cached are not found when its dependencies are collected ('Could not find JS for component')")
     d = cs[0].args[1]
     top = {str(k.value): v for k, v in zip(d.keys, d.values) if isinstance(k, ast.Constant)}
     ignored = sorted(k for k in top if k not in keys["params"])
